@@ -3,6 +3,7 @@ package props
 import (
 	"encoding/json"
 	"fmt"
+	"time"
 
 	"github.com/corestario/kyber/sign/tbls"
 
@@ -64,10 +65,103 @@ func checkC01(c *Ctx) {
 			jobs = append(jobs, job{nt, r})
 		}
 	}
+	liveDone := make(chan struct{})
+	go func() {
+		defer close(liveDone)
+		defer func() {
+			if x := recover(); x != nil {
+				c.Inconclusive("live world: harness panic: %v", x)
+			}
+		}()
+		c01Live(c)
+	}()
 	Parallel(len(jobs), 16, func(i int) {
 		jb := jobs[i]
 		runC01Case(c, jb.nt.N, jb.nt.T, uint64(jb.rep))
 	})
+	<-liveDone
+}
+
+// c01Live: one world in which every node runs the repository's real Poll() loop (as the daemon does)
+// on LevelDB, with the operators on the REST API: two key generations with different thresholds started
+// back to back, then batches in both rounds. Judged at quiescence like every other ceremony.
+func c01Live(c *Ctx) {
+	seed := c.Seed*211 + 7
+	r := sched.Derive(seed, 3)
+	n := 3
+	wit := map[string]interface{}{"family": "live Poll loops, two rounds", "n": n, "case_seed": seed, "operator_channel": "REST API"}
+	w, err := world.NewWorld(world.Options{N: n, T: 2, Seed: seed, UseLevelDB: true, ViaHTTP: true})
+	if err != nil {
+		c.Inconclusive("live world: %v", err)
+		return
+	}
+	defer w.Close()
+	w.StartLive()
+	ths := []int{2, 3}
+	var ces []*Ceremony
+	for k, t := range ths {
+		id, err := w.StartDKG(k, t, now())
+		if err != nil {
+			c.Inconclusive("live world: start %d: %v", k, err)
+			return
+		}
+		ces = append(ces, &Ceremony{W: w, N: n, T: t, Round: id})
+	}
+	if !w.RunLive(3 * time.Minute) {
+		c.Inconclusive("live world: key generations not quiescent within the bound")
+		return
+	}
+	keys := make([][]byte, len(ces))
+	for k, ce := range ces {
+		if !ce.AllIn(StIdle) {
+			c.Inconclusive("live world: round %d ended %v (judged by C02/C05)", k, ce.States())
+			return
+		}
+		if keys[k], _, err = ce.GroupKeyFromMachines(); err != nil {
+			c.Inconclusive("live world: %v", err)
+			return
+		}
+	}
+	expected := []map[string]map[string]ExpectedMsg{{}, {}}
+	complete := []map[string]bool{{}, {}}
+	for bi, k := range []int{0, 1, 0, 1} {
+		ce := ces[k]
+		before := w.Board.Len()
+		data := map[string][]byte{fmt.Sprintf("live-%d", bi): randPayload(r), fmt.Sprintf("live-%d-b", bi): randPayload(r)}
+		if err := w.ProposeSign(r.Intn(n), ce.Round, data, nil); err != nil {
+			c.Inconclusive("live world: proposal %d: %v", bi, err)
+			return
+		}
+		if !w.RunLive(2 * time.Minute) {
+			c.Inconclusive("live world: batch %d not quiescent within the bound", bi)
+			return
+		}
+		for _, m := range w.Board.All()[before:] {
+			if m.Event == EvSigningStart && m.DkgRoundID == ce.Round {
+				if bid, msgs, e := ExpandProposal(m.Data); e == nil {
+					expected[k][bid] = map[string]ExpectedMsg{}
+					for _, x := range msgs {
+						expected[k][bid][x.ID] = x
+					}
+					complete[k][bid] = true
+				}
+			}
+		}
+		c.Eval(1)
+		c.Add("batches_signed_under_live_poll_loops", 1)
+		c.Distinct(fmt.Sprintf("live|round%d|batch%d", k, bi))
+	}
+	if errs := w.StopLive(); len(errs) > 0 {
+		c.Violate("C01/live-poll-loop-ended-with-an-error", fmt.Sprint(errs), wit)
+	}
+	for k, ce := range ces {
+		j := newSigJudge(c, keys[k])
+		ce.JudgeSignatures(c, j, expected[k], complete[k], wit)
+		c.Add("signatures_verified", j.Verified)
+		if j.Verified == 0 {
+			c.Violate("C01/no-signature-produced", fmt.Sprintf("live world, round %d: no signature anywhere", k), wit)
+		}
+	}
 }
 
 func runC01Case(c *Ctx, n, t int, rep uint64) {
